@@ -14,6 +14,15 @@ def tables():
     return t
 
 
+def plan_replay():
+    def args(inp, case, fail):
+        if "cur_len" not in inp or not isinstance(inp.get("cur_seq"), list):
+            return None
+        n = int(inp["cur_len"])
+        return [n, int(inp["cur_nr"])] + [int(v) for v in inp["cur_seq"][:n]]
+    return {"src": ["harness/x_plan.c"], "args": args, "libs": []}
+
+
 def jobs(tier, seed):
     J = []
     J.append(Job("xor.whitelist", props=["C05", "C13"], layer="L2", strength="Pinf",
@@ -52,12 +61,12 @@ def jobs(tier, seed):
             variants += [(".e0=%d" % e, 0, 3, e, e, True) for e in range(1, n)]
         else:
             variants.append(("", 0, 2, -1, n - 1, True))
-            variants += [(".3of.e0=%d" % e, 3, 3, e, e, False) for e in sorted(rnd.sample(range(0, n - 2), 2))]
+            variants += [(".3of.e0=%d" % e, 3, 3, e, e, False) for e in sorted(rnd.sample(range(max(0, n - 9), n - 2), 2))]
         if hd == 3 and m >= 3:      # 3 erasures on an hd=3 code: beyond tolerance, still admitted by the front end (<= m)
             if tier == "thorough" or n <= 10:
                 variants += [(".beyond3.e0=%d" % e, 3, 3, e, e, True) for e in range(0, n - 2)]
             else:
-                variants += [(".beyond3.e0=%d" % e, 3, 3, e, e, False) for e in sorted(rnd.sample(range(0, n - 2), 2))]
+                variants += [(".beyond3.e0=%d" % e, 3, 3, e, e, False) for e in sorted(rnd.sample(range(max(0, n - 9), n - 2), 2))]
         for (sfx, emin, emax, lo, hi, complete) in variants:
             dd = {"K": k, "M": m, "HD": hd, "EMIN": emin, "EMAX": emax, "E0LO": lo, "E0HI": hi, "CELL": 1}
             within = "beyond" not in sfx
@@ -65,7 +74,7 @@ def jobs(tier, seed):
                 J.append(Job("xor.%s%s@%s" % (fn, sfx, tag), group="xor.%s%s" % (fn, "" if within else ".beyond3"),
                              props=(["C05", "C01", "C02"] if mode == 4 else ["C05", "C03", "C02"]) if within else ["C02"],
                              strength="P#" if complete else "B",
-                             bound="" if complete else "quick tier: 3-erasure sets sampled by lowest erased index (2 of %d values, VERIF_SEED); all sets of size <= 2 complete; thorough tier enumerates every set" % (n - 2),
+                             bound="" if complete else "quick tier: 3-erasure sets sampled by lowest erased index (2 of the 7 highest of its %d values, VERIF_SEED: the sets with a low lowest index are the expensive ones and run in the thorough tier only); all sets of size <= 2 complete; thorough tier enumerates every set" % (n - 2),
                              title=("flat_xor_hd_%s: all erasure sets with %d<=|E|<=%d and lowest erased index in [%d,%d], enumerated: %s" % (
                                     fn, emin, emax, lo, hi,
                                     "restored exactly (data and parity), any blocksize/data" if within else "error or exact result, never wrong bytes")),
@@ -91,4 +100,51 @@ def jobs(tier, seed):
                              harness=["harness/x_code.c", "harness/stub_xor_cell.c", "harness/stub_xor_pattern.c", "harness/stub_env.c"],
                              case={"k": k, "m": m, "hd": hd, "emin": 4, "emax": m}, layer="L2",
                              replaced=KSTUB + ["get_failure_pattern (contract: >= 4 erasures => FAIL_PATTERN_GE_HD)"]))
+    PLANFN = ["flat_xor_hd_init", "flat_xor_hd_exit", "init_xor_hd_code", "flat_xor_hd_min_fragments", "xor_hd_fragments_needed",
+              "fragments_needed_one_data", "fragments_needed_two_data", "fragments_needed_three_data", "fragments_needed_one_data_local",
+              "get_failure_pattern", "get_missing_data", "get_missing_parity", "index_of_connected_parity", "num_missing_data_in_parity",
+              "remove_from_missing_list", "missing_elements_bm", "is_data_in_parity", "does_parity_have_data", "data_bit_lookup"]
+    for (k, m, hd) in tables():
+        tag = "%d_%d_%d" % (k, m, hd)
+        n = k + m
+        rnd = random.Random(seed * 7919 + k * 101 + m * 17 + hd)
+        V = []   # (suffix, group, lmin, lmax, e0lo, e0hi, e1 range or None, sorted, strength, bound)
+        l2 = min(2, hd - 1)
+        g = max(1, 70 // (2 * n))                       # first indexes per run: <= ~70 requests per run
+        for lo in range(0, n, g):
+            hi = min(n - 1, lo + g - 1)
+            V.append((".le2.i0=%d..%d" % (lo, hi), "xor.plan.le2", 1, l2, lo, hi, None, 0, "P#", ""))
+        if hd == 4:
+            pairs = [(x, y) for x in range(n) for y in range(n) if x != y]
+            if tier != "thorough":
+                pairs = [pairs[rnd.randrange(len(pairs))]]
+            for (x, y) in pairs:
+                V.append((".3.i=%d,%d" % (x, y), "xor.plan.3", 3, 3, x, x, (y, y), 0, "P#" if tier == "thorough" else "B",
+                          "" if tier == "thorough" else "quick tier: requests with |R|+|X| == 3 only for one (first, second) index pair per hd=4 table (VERIF_SEED); all requests with |R|+|X| <= 2 complete; the thorough tier enumerates every pair"))
+        r = 7 if hd == 3 else 6
+        xs = list(range(max(0, n - 1 - r), n - hd + 1))
+        if tier != "thorough":
+            xs = [xs[rnd.randrange(len(xs))]]
+        for x in xs:
+            V.append((".beyond.i0=%d" % x, "xor.plan.beyond", hd, hd, x, x, None, 1, "B",
+                      "requests beyond tolerance: |R|+|X| == hd, increasing index order, lowest index among the %d highest%s; larger requests take the same FAIL_PATTERN_GE_HD path" % (r, "" if tier == "thorough" else " (one per table, VERIF_SEED)")))
+        x = rnd.randrange(n)
+        V.append((".mem.i0=%d" % x, "xor.plan.mem", 1, l2, x, x, None, 0, "B", "memory-safety companion of the enumerated planner jobs under CBMC's own malloc/free model (use after free, leaks, exact heap bounds): requests with |R|+|X| <= 2 and one first index per table (VERIF_SEED)"))
+        for (sfx, grp, lmin, lmax, lo, hi, e1, srt, strength, bound) in V:
+            dd = {"K": k, "M": m, "HD": hd, "LMIN": lmin, "LMAX": lmax, "E0LO": lo, "E0HI": hi}
+            if e1:
+                dd["E1LO"], dd["E1HI"] = e1
+            if srt == 1:
+                dd["SORTED"] = 1
+            J.append(Job("xor.plan%s@%s" % (sfx, tag), group=grp, props=["C06"] + (["C15"] if grp == "xor.plan.le2" else []), layer="L2", strength=strength, bound=bound,
+                         title=("flat_xor_hd_min_fragments/xor_hd_fragments_needed: EVERY request list R and exclude list X (all orders, all splits) with %d<=|R|+|X|<=%d and first index in [%d,%d]: %s" % (
+                                lmin, lmax, lo, hi, "succeeds; answer -1 terminated, distinct, in range, disjoint from R and X, spans every requested row over GF(2)" if lmax < hd
+                                else "an error or a correct answer, never a wrong list")),
+                         functions=PLANFN, replaced=["malloc/free (CBMC models)" if grp == "xor.plan.mem" else "malloc/free (slot allocator of exact-size static objects, harness/stub_pool_alloc.c; use-after-free not modelled there, see xor.plan.mem)"], repo_src=[XC, XH, FX],
+                         harness=["harness/x_plan.c", "harness/stub_env.c"] + ([] if grp in ("xor.plan.mem", "xor.plan.sym") else ["harness/stub_pool_alloc.c"]),
+                         defines=dict(dd, **({} if grp in ("xor.plan.mem", "xor.plan.sym") else {"POOL_NBYTES": 4 * n, "POOL": 1})),
+                         case={"k": k, "m": m, "hd": hd, "lmin": lmin, "lmax": lmax, "i0": [lo, hi], "i1": list(e1) if e1 else None}, unwind=34,
+                         loop_bounds=[(r"SUBMASK", 66)],   # no tight bounds on the library's own list loops: CBMC does not reset a loop's unwind counter when the loop is left by break
+                         export_static=True, replay=plan_replay(), object_bits=16, leak=(grp == "xor.plan.mem"),
+                         expect=["C06: every requested fragment can be rebuilt", "C06: the answer contains none"], timeout=1200, mem_gb=4, weight=n * lmax))
     return J
